@@ -31,8 +31,9 @@ Section M.
 Variable cfg : config.
 
 (* ---------------- Unicode case mapping (std tables) ---------------- *)
+(* the dumped tables are in ascending code-point order (checked in gen/Tables.v), so the look-up may stop at the first larger key *)
 Fixpoint tbl_find (t : list (N * list N)) (c : N) : option (list N) :=
-  match t with [] => None | (k, v) :: r => if k =? c then Some v else tbl_find r c end.
+  match t with [] => None | (k, v) :: r => if k =? c then Some v else if c <? k then None else tbl_find r c end.
 Definition lower_c (c : N) : list N := match tbl_find (lower_tbl cfg) c with Some l => l | None => [c] end.
 Definition fold_c (c : N) : list N := match tbl_find (fold_tbl cfg) c with Some l => l | None => [c] end.
 Definition is_uppercase (c : N) : bool := existsb (fun r => inr (fst r) (snd r) c) (upper_rng cfg).
